@@ -1341,7 +1341,7 @@ func c26ComputeProperty(st *vs.S) func(rt *rapid.T) {
 // TestVerifC26Compute: non-trivial = every case (each stores >= 5 computed words).
 func TestVerifC26Compute(t *testing.T) {
 	st := vs.New("C26", t)
-	vs.Check(t, 0.6, c26ComputeProperty(st))
+	vs.Check(t, 2, c26ComputeProperty(st))
 }
 
 func TestVerifC26Transition(t *testing.T) {
